@@ -371,6 +371,10 @@ def run(ctx, bt, scale=1):
         # the program model the whole-backtest theorems (`prog_backtest_causal`) speak about, executed end to end
         from .. import whole_run as W
         W.whole_run_protocol(ctx, bt, ctx.scale(15, 300), "whole-run[C04]")
+        # blotter-driven strategies (ReplayTransactions / SimulateRFQTransactions) inside the whole-program model (`progRunR`): the
+        # model `C04.progRunR_causalWith` / `blotter_backtest_causal` speak about, executed end to end
+        from .. import whole_run_r as WR
+        WR.blotter_whole_run_protocol(ctx, bt, ctx.scale(15, 300), "whole-run-r[C04]")
 
 
 def search(ctx, bt):
